@@ -151,7 +151,7 @@ func rpcRun(rng *rand.Rand, res *hx.Result, runNo int) ([]Event, *rpcRunStats, e
 	closed := make(chan struct{})
 	var closeStart time.Time
 	doClose := func() {
-		rec.emit(Event{Op: "StopCall"})
+		rec.emit(Event{Op: "StopCall", Fam: "rpc"})
 		closeStart = time.Now()
 		go func() {
 			nd.s.Close()
